@@ -7,7 +7,7 @@ from oracle.pdfwriter import Name, Ref
 ID = "C15"
 LEVEL = "proof"
 DESIGN_REF = "DESIGN.md §9 C15, §12.C15"
-COQ_TARGETS = ["Properties/C15", "Pins/C15"]
+COQ_TARGETS = ["Properties/C15", "Pins/C15", "Typed/Font"]
 THEOREMS = [("PdfV.Properties.C15", n) for n in
             ["C15_value_rt", "C15_fields_rt", "C15_dict_rt", "C15_generated_wf", "C15_generated_indirect",
              "C15_generated_value_rt", "C15_hand_Rectangle", "C15_hand_Matrix", "C15_hand_Date", "C15_hand_Action",
